@@ -93,8 +93,9 @@ plan("C20", [("lifecycle", 8, 60), ("slash", 6, 40)], tests=["TestBulk200"],
 plan("C18", [], tests=["TestC18Replicas"],
      minobs={"replica-blocks-compared": 2000, "interesting-blocks": 100, "replica-runs": 6},
      rule="worlds of several profiles are recorded (RequestInitChain and every RequestFinalizeBlock byte-exactly, per chain) and re-executed on fresh application "
-          "instances without probes: one replica in the same process, further replicas in separate processes (and, in the thorough tier, 4 concurrent replicas "
-          "per chain with concurrent queries in a -race process); SHA-256 digests of every response (whole, app hash, validator updates, tx results, events) "
+          "instances without probes: one replica in the same process, further replicas in separate processes (and, in the thorough tier, for the first world of every profile, 3 concurrent "
+          "replicas of the first 200 blocks of every chain with concurrent queries in a -race process); SHA-256 digests of every response (whole, app hash, validator "
+          "updates, tx results without the free-text Log/Info fields, events) "
           "are compared block by block; race reports are judged only when the racing access itself is in x/ccv code; distinct = (profile, chain kind, chain)")
 
 plan("C19", [("lifecycle", 4, 30), ("valset", 3, 20), ("slash", 3, 20), ("keys", 2, 10)], tests=["TestC19Faults"], level="fault_enumeration",
